@@ -22,10 +22,11 @@ R = (1, 3, 6, 1, 4, 1, 9)
 BASE = R + (1,)
 A, B, C = BASE + (2,), BASE + (200,), BASE + (16434,)
 BEFORE, AFTER = R[:-1] + (8,), R + (2,)
-OIDS = {"base": BASE, "a": A, "b": B, "c": C, "before": BEFORE, "after": AFTER, "deep": BASE + (200, 0)}
+LONG = C + (1,) * (128 - len(C))  # a name of exactly 128 sub-identifiers, the last row of the subtree
+OIDS = {"base": BASE, "a": A, "b": B, "c": C, "before": BEFORE, "after": AFTER, "deep": BASE + (200, 0), "long": LONG}
 VALS = {"int": rb.enc_int(7), "null": b"\x05\x00", "nso": b"\x80\x00", "nsi": b"\x81\x00", "eom": b"\x82\x00"}
 NONDATA = ("null", "nso", "nsi", "eom")
-MIB = Mib([(o, rb.enc_int(i + 1), i + 1) for i, o in enumerate((BEFORE, A, B, C, AFTER))])
+MIB = Mib([(o, rb.enc_int(i + 1), i + 1) for i, o in enumerate((BEFORE, A, B, C, LONG, AFTER))])
 HORIZON = 5
 MAX_REQUESTS = 14
 
@@ -239,6 +240,10 @@ class Scripted:
         req = drivers.open_request(self.cfg, data, strict=False, check_mac=False)
         step = len(self.requests)
         self.requests.append(req.oids[0])
+        if getattr(self, "drop_at", None) == step:
+            self.drop_at = None
+            self.replies.append([])
+            return []  # this one reply is lost
         if step >= getattr(self, "horizon", MAX_REQUESTS):
             return []  # horizon: stop answering, the client will time out -> 'runaway'
         n = req.b if req.pdu_tag == rb.PDU_GETBULK else 1
@@ -364,6 +369,95 @@ def evaluate(res, case, cfg, devs, sc, got, out):
         res.sample({"driver": case["driver"], "method": case["method"], "deviations": devs, "requests": [rb.oid_str(r) for r in sc.requests], "yielded": [rb.oid_str(y) for y in yielded], "end": end})
 
 
+# ------------------------------------------------------------------ a reply lost in the middle of a walk
+
+
+def loss_cases(tier):
+    for driver in ("sync", "async"):
+        for method, mr in (("getnext", None), ("getbulk", 2), ("getbulk", 3), ("getbulk", 10)):
+            yield {"driver": driver, "cfg": Cfg("v2c").describe(), "method": method, "max_rep": mr, "lost": [0, 1, 2, 3, 4]}
+
+
+def run_loss(case, res):
+    """The reply to the k-th request is lost: next() raises TimeoutError; the caller asks the same iterator again.
+    Over the whole walk every row is yielded once, in order."""
+    cfg = Cfg.from_desc(case["cfg"])
+    method, max_rep = case["method"], case["max_rep"]
+    sc = Scripted(cfg)
+    base = rb.oid_str(BASE)
+    want = [(rb.oid_str(o), i + 2) for i, o in enumerate((A, B, C, LONG))]
+
+    def mk(s):
+        return s.getnext(base) if method == "getnext" else s.getbulk(base, max_rep)
+
+    def norm(x):
+        return (x[0], x[1]) if isinstance(x, tuple) and len(x) == 2 else x
+
+    def check(k, got, timeouts, end):
+        res.count("walks")
+        res.count("requests", len(sc.requests))
+        res.distinct()
+        res.outcome("lost-reply")
+        prob = None
+        if got != want:
+            prob = "yielded %r over the whole walk, the agent holds %r" % ([g[0].replace(rb.oid_str(R), "R") if isinstance(g, tuple) else g for g in got][:12], [w[0].replace(rb.oid_str(R), "R") for w in want])
+        elif end != "stop":
+            prob = "walk ended with %s" % end
+        elif timeouts > 1:
+            prob = "%d time-outs for one lost reply" % timeouts
+        if prob:
+            small = dict(case)
+            small["lost"] = [k]
+            res.violation("%s/lost-reply-%s: %s" % (case["driver"], method, _cls(prob)), "reply to request #%d lost, iterator asked again after the TimeoutError: %s" % (k, prob), small)
+
+    if case["driver"] == "sync":
+        w = drivers.SyncWorld(cfg, sc, timeout=0.15, max_repetitions=max_rep or 3)
+        try:
+            for k in case["lost"]:
+                sc.arm(method, max_rep, [])
+                sc.drop_at = k
+                it = iter(mk(w.session))
+                got, timeouts, end = [], 0, None
+                while end is None and len(got) < 30 and timeouts < 4:
+                    try:
+                        got.append(norm(next(it)))
+                    except StopIteration:
+                        end = "stop"
+                    except TimeoutError:
+                        timeouts += 1
+                    except Exception as e:  # noqa: BLE001
+                        end = "raised " + type(e).__name__
+                check(k, got, timeouts, end or "no end")
+            if w.errors:
+                res["machinery"].append("agent errors %s" % w.errors[:2])
+        finally:
+            w.close()
+    else:
+
+        async def client(s):
+            for k in case["lost"]:
+                sc.arm(method, max_rep, [])
+                sc.drop_at = k
+                it = mk(s).__aiter__()
+                got, timeouts, end = [], 0, None
+                while end is None and len(got) < 30 and timeouts < 4:
+                    try:
+                        got.append(norm(await it.__anext__()))
+                    except StopAsyncIteration:
+                        end = "stop"
+                    except TimeoutError:
+                        timeouts += 1
+                    except Exception as e:  # noqa: BLE001
+                        end = "raised " + type(e).__name__
+                check(k, got, timeouts, end or "no end")
+
+        o, reqs, errs = drivers.run_async(cfg, sc, client, timeout=0.15, max_repetitions=max_rep or 3)
+        if errs:
+            res["machinery"].append("agent errors %s" % errs[:2])
+        if o.kind != "ok":
+            res["machinery"].append("async driver failed %r" % (o.brief(),))
+
+
 # ------------------------------------------------------------------ interleaved / abandoned iterators
 
 
@@ -383,7 +477,7 @@ def run_interleave(case, res):
     method, max_rep = case["method"], case["max_rep"]
     sc = Scripted(cfg)
     base = rb.oid_str(BASE)
-    want = [(rb.oid_str(o), i + 2) for i, o in enumerate((A, B, C))]
+    want = [(rb.oid_str(o), i + 2) for i, o in enumerate((A, B, C, LONG))]
 
     def mk(s):
         return s.getnext(base) if method == "getnext" else s.getbulk(base, max_rep)
@@ -494,6 +588,8 @@ def work(chunk):
     for case in chunk:
         if "seqs" in case:
             run_interleave(case, res)
+        elif "lost" in case:
+            run_loss(case, res)
         else:
             run_block(case, res)
         res.count("cases")
@@ -548,6 +644,9 @@ def replay(case):
     common.prepare_stage()
     res = common.Result()
     case = dict(case)
+    if "lost" in case:
+        run_loss(case, res)
+        return {"violations": [(v[0], v[1]) for v in res["violations"]]}
     if "seqs" in case:
         run_interleave(case, res)
         return {"violations": [(v[0], v[1]) for v in res["violations"]]}
@@ -560,10 +659,10 @@ def run(tier):
     common.prepare_stage()
     rec = common.Recorder(PROPERTY, tier, LEVEL, MODULE)
     rec.rule = (
-        "agent strategies = sets of <=D varbind-level deviations (substitute / delete / insert over 7 OIDs {base, 3 in-subtree, a child, before, after} x 5 values "
+        "agent strategies = sets of <=D varbind-level deviations (substitute / delete / insert over 8 OIDs {base, 3 in-subtree, a child, a 128-sub-identifier name, before, after} x 5 values "
         "{Int, NULL, noSuchObject, noSuchInstance, endOfMibView}) applied within the first %d requests to the RFC-conformant answers; getnext and getbulk; sync and async "
         "iterators. Non-trivial = at least one deviation actually changed a reply. Plus: two iterators over the same subtree (one or two sessions) advanced in every "
-        "order of <= %d next() calls and then abandoned, followed by a fresh complete walk - each item must be the next entry of the iterator's own walk." % (HORIZON, 6 if tier == "thorough" else 5)
+        "order of <= %d next() calls and then abandoned, followed by a fresh complete walk - each item must be the next entry of the iterator's own walk. Plus: the reply to the k-th request (k = 0..4) lost once, the same iterator asked again after the TimeoutError - every row once, in order." % (HORIZON, 6 if tier == "thorough" else 5)
     )
     rec.assume(
         "specification is permissive where the property is silent: NULL/exception varbinds in a bulk reply are transparent; a non-increasing OID must not be yielded and "
@@ -571,7 +670,7 @@ def run(tier):
         "a GETNEXT reply with >= 2 varbinds ends normally or with SnmpError",
         "horizon: a walk that sends more than %d requests is reported as non-terminating" % MAX_REQUESTS,
     )
-    cases = list(gen_cases(tier)) + list(interleave_cases(tier))
+    cases = list(gen_cases(tier)) + list(interleave_cases(tier)) + list(loss_cases(tier))
     common.run_cases(rec, work, cases, chunk=1, timeout=900, case_timeout=300)
     n = rec.counters["walks"]
     return rec.finish(evaluations=n, distinct_nontrivial=rec.distinct_n, states=n, transitions=rec.counters["requests"], traces=n)
